@@ -131,16 +131,25 @@ Definition get_can_id (m : message) : Z :=
        end.
 
 (* ---------- the small world the harness drives through the public API ----------
-   one message, one node with one interface, one bus, a pool of builders (index 0 is the bus's
-   own default builder, reachable through Bus.CANIDBuilder()); the bus holds a *pointer* to its
-   builder, hence `w_cur` is an index and edits of a builder are seen by the bus that uses it. *)
+   The observed message, its node with one interface, one bus, a pool of builders (index 0 is the
+   bus's own default builder, reachable through Bus.CANIDBuilder()); the bus holds a *pointer* to
+   its builder, hence `w_cur` is an index and edits of a builder are seen by the bus that uses it.
+   Around it, what decides whether the library ACCEPTS an operation: a sibling message on the same
+   interface (message ids are unique per interface), a second node whose interface can be on the
+   same bus (node ids are unique per bus), whether the bus is in the network, whether the node
+   still owns its interface.  `accepted` predicts every refusal; a refused operation changes
+   nothing. *)
 Record world : Type := mkWorld {
   w_id : Z; w_prio : Z; w_static : Z; w_has_static : bool;
   w_attached : bool;      (* message.senderNodeInt != nil *)
   w_on_bus : bool;        (* nodeInt.parentBus != nil *)
   w_node_id : Z;
   w_builders : list (list op);
-  w_cur : nat }.
+  w_cur : nat;
+  w_sib_id : Z; w_sib_attached : bool;     (* sibling message on the same interface, never static *)
+  w_node2_id : Z; w_on_bus2 : bool;        (* second node / interface *)
+  w_in_net : bool;                         (* bus added to the network *)
+  w_iface_removed : bool }.                (* Node.RemoveInterface done: the node has no interface left *)
 
 Inductive edit : Type :=
 | EUse (k : kind) (from len : Z)           (* UseMessagePriority (len = 2) / UseMessageID / UseNodeID / UseBitMask / UseCAN2A *)
@@ -158,18 +167,18 @@ Definition apply_edit (ops : list op) (e : edit) : result (list op) :=
 
 Inductive wop : Type :=
 | WSetPriority (p : Z)          (* Message.SetPriority *)
-| WSetStatic (x : Z)            (* Message.SetStaticCANID, success path *)
-| WUpdateID (y : Z)             (* Message.UpdateID, success path *)
-| WNodeID (z : Z)               (* Node.UpdateID, success path *)
+| WSetStatic (x : Z)            (* Message.SetStaticCANID *)
+| WUpdateID (y : Z)             (* Message.UpdateID *)
+| WNodeID (z : Z)               (* Node.UpdateID *)
 | WAttach | WDetach             (* NodeInterface.AddSentMessage / RemoveSentMessage *)
 | WBusAdd | WBusRemove          (* Bus.AddNodeInterface / RemoveNodeInterface *)
 | WDetachAll                    (* NodeInterface.RemoveAllSentMessages *)
 | WBusRemoveAll                 (* Bus.RemoveAllNodeInterfaces *)
 | WRemoveInterface              (* Node.RemoveInterface: takes the interface off its bus; the
                                    message keeps its sender interface and that keeps its node *)
-| WFrame                        (* anything done to other entities: Network.AddBus / RemoveBus of
-                                   the bus, attaching / detaching another node's interface or
-                                   another message *)
+| WNetAdd | WNetRemove          (* Network.AddBus / RemoveBus of the bus: detaches nothing *)
+| WBusAdd2 | WBusRemove2        (* the second node's interface joins / leaves the bus *)
+| WSetBuilderB (i : nat)        (* the second bus takes pool[i] (shared builder): no effect here *)
 | WSetBuilder (i : nat)         (* Bus.SetCANIDBuilder(pool[i]) *)
 | WEdit (i : nat) (e : edit).   (* an edit of pool[i]; a refused edit changes nothing *)
 
@@ -180,26 +189,82 @@ Fixpoint set_nth {A : Type} (i : nat) (v : A) (l : list A) : list A :=
   | S i', x :: r => x :: set_nth i' v r
   end.
 
-Definition wstep (w : world) (o : wop) : world :=
+(* field updates *)
+Definition upd_msg (w : world) (id prio st : Z) (hs : bool) : world :=
+  mkWorld id prio st hs (w_attached w) (w_on_bus w) (w_node_id w) (w_builders w) (w_cur w)
+    (w_sib_id w) (w_sib_attached w) (w_node2_id w) (w_on_bus2 w) (w_in_net w) (w_iface_removed w).
+Definition upd_links (w : world) (att onb sib onb2 innet rem : bool) : world :=
+  mkWorld (w_id w) (w_prio w) (w_static w) (w_has_static w) att onb (w_node_id w) (w_builders w) (w_cur w)
+    (w_sib_id w) sib (w_node2_id w) onb2 innet rem.
+Definition upd_node (w : world) (nid : Z) : world :=
+  mkWorld (w_id w) (w_prio w) (w_static w) (w_has_static w) (w_attached w) (w_on_bus w) nid (w_builders w) (w_cur w)
+    (w_sib_id w) (w_sib_attached w) (w_node2_id w) (w_on_bus2 w) (w_in_net w) (w_iface_removed w).
+Definition upd_builders (w : world) (bs : list (list op)) (cur : nat) : world :=
+  mkWorld (w_id w) (w_prio w) (w_static w) (w_has_static w) (w_attached w) (w_on_bus w) (w_node_id w) bs cur
+    (w_sib_id w) (w_sib_attached w) (w_node2_id w) (w_on_bus2 w) (w_in_net w) (w_iface_removed w).
+
+(* does the library accept the operation in this state?  (the error it returns otherwise is the
+   subject of C06; here only the fact of refusal, which decides whether the state changes) *)
+Definition accepted (w : world) (o : wop) : bool :=
   match o with
-  | WSetPriority p => mkWorld (w_id w) (u32 p) (w_static w) (w_has_static w) (w_attached w) (w_on_bus w) (w_node_id w) (w_builders w) (w_cur w)
-  | WSetStatic x => mkWorld (u32 x) (w_prio w) (u32 x) true (w_attached w) (w_on_bus w) (w_node_id w) (w_builders w) (w_cur w)
-  | WUpdateID y => mkWorld (u32 y) (w_prio w) 0 false (w_attached w) (w_on_bus w) (w_node_id w) (w_builders w) (w_cur w)
-  | WNodeID z => mkWorld (w_id w) (w_prio w) (w_static w) (w_has_static w) (w_attached w) (w_on_bus w) (u32 z) (w_builders w) (w_cur w)
-  | WAttach => mkWorld (w_id w) (w_prio w) (w_static w) (w_has_static w) true (w_on_bus w) (w_node_id w) (w_builders w) (w_cur w)
-  | WDetach | WDetachAll => mkWorld (w_id w) (w_prio w) (w_static w) (w_has_static w) false (w_on_bus w) (w_node_id w) (w_builders w) (w_cur w)
-  | WBusAdd => mkWorld (w_id w) (w_prio w) (w_static w) (w_has_static w) (w_attached w) true (w_node_id w) (w_builders w) (w_cur w)
-  | WBusRemove | WBusRemoveAll | WRemoveInterface =>
-      mkWorld (w_id w) (w_prio w) (w_static w) (w_has_static w) (w_attached w) false (w_node_id w) (w_builders w) (w_cur w)
-  | WFrame => w
-  | WSetBuilder i => mkWorld (w_id w) (w_prio w) (w_static w) (w_has_static w) (w_attached w) (w_on_bus w) (w_node_id w) (w_builders w) i
+  | WSetPriority _ => true
+  | WSetStatic x =>
+      (* verifyStaticCANID: the interface's (and its bus's) static ids are the message's own one *)
+      negb (w_attached w && w_has_static w && (u32 x =? w_static w))
+  | WUpdateID y =>
+      (* unchanged non-static id: nothing to do; else verifyMessageID against the interface's ids *)
+      if (u32 y =? w_id w) && negb (w_has_static w) then true
+      else negb (w_attached w && w_sib_attached w && (u32 y =? w_sib_id w))
+  | WNodeID z =>
+      if u32 z =? w_node_id w then true
+      else negb (w_on_bus w && negb (w_iface_removed w) && w_on_bus2 w && (u32 z =? w_node2_id w))
+  | WAttach =>
+      negb (w_attached w)
+      && negb (negb (w_has_static w) && w_sib_attached w && (w_id w =? w_sib_id w))
+  | WDetach => w_attached w
+  | WDetachAll => true
+  | WBusAdd => negb (w_on_bus w) && negb (w_on_bus2 w && (w_node_id w =? w_node2_id w))
+  | WBusRemove => w_on_bus w
+  | WBusRemoveAll => true
+  | WRemoveInterface => negb (w_iface_removed w)
+  | WNetAdd => negb (w_in_net w)
+  | WNetRemove => w_in_net w
+  | WBusAdd2 => negb (w_on_bus2 w) && negb (w_on_bus w && (w_node_id w =? w_node2_id w))
+  | WBusRemove2 => w_on_bus2 w
+  | WSetBuilderB _ => true
+  | WSetBuilder _ => true
+  | WEdit i e => match apply_edit (nth i (w_builders w) []) e with Ok _ => true | Err _ => false end
+  end.
+
+(* the effect of an accepted operation *)
+Definition wapply (w : world) (o : wop) : world :=
+  match o with
+  | WSetPriority p => upd_msg w (w_id w) (u32 p) (w_static w) (w_has_static w)
+  | WSetStatic x => upd_msg w (u32 x) (w_prio w) (u32 x) true
+  | WUpdateID y => upd_msg w (u32 y) (w_prio w) 0 false
+  | WNodeID z => upd_node w (u32 z)
+  | WAttach => upd_links w true (w_on_bus w) (w_sib_attached w) (w_on_bus2 w) (w_in_net w) (w_iface_removed w)
+  | WDetach => upd_links w false (w_on_bus w) (w_sib_attached w) (w_on_bus2 w) (w_in_net w) (w_iface_removed w)
+  | WDetachAll => upd_links w false (w_on_bus w) false (w_on_bus2 w) (w_in_net w) (w_iface_removed w)
+  | WBusAdd => upd_links w (w_attached w) true (w_sib_attached w) (w_on_bus2 w) (w_in_net w) (w_iface_removed w)
+  | WBusRemove => upd_links w (w_attached w) false (w_sib_attached w) (w_on_bus2 w) (w_in_net w) (w_iface_removed w)
+  | WBusRemoveAll => upd_links w (w_attached w) false (w_sib_attached w) false (w_in_net w) (w_iface_removed w)
+  | WRemoveInterface => upd_links w (w_attached w) false (w_sib_attached w) (w_on_bus2 w) (w_in_net w) true
+  | WNetAdd => upd_links w (w_attached w) (w_on_bus w) (w_sib_attached w) (w_on_bus2 w) true (w_iface_removed w)
+  | WNetRemove => upd_links w (w_attached w) (w_on_bus w) (w_sib_attached w) (w_on_bus2 w) false (w_iface_removed w)
+  | WBusAdd2 => upd_links w (w_attached w) (w_on_bus w) (w_sib_attached w) true (w_in_net w) (w_iface_removed w)
+  | WBusRemove2 => upd_links w (w_attached w) (w_on_bus w) (w_sib_attached w) false (w_in_net w) (w_iface_removed w)
+  | WSetBuilderB _ => w
+  | WSetBuilder i => upd_builders w (w_builders w) i
   | WEdit i e =>
-      let b := nth i (w_builders w) [] in
-      match apply_edit b e with
-      | Ok b' => mkWorld (w_id w) (w_prio w) (w_static w) (w_has_static w) (w_attached w) (w_on_bus w) (w_node_id w) (set_nth i b' (w_builders w)) (w_cur w)
+      match apply_edit (nth i (w_builders w) []) e with
+      | Ok b' => upd_builders w (set_nth i b' (w_builders w)) (w_cur w)
       | Err _ => w
       end
   end.
+
+(* a refused operation changes nothing *)
+Definition wstep (w : world) (o : wop) : world := if accepted w o then wapply w o else w.
 
 (* the object graph GetCANID walks, rebuilt from the flat world *)
 Definition view (w : world) : message :=
@@ -211,5 +276,7 @@ Definition view (w : world) : message :=
 
 Definition world_can_id (w : world) : Z := get_can_id (view w).
 
-Definition init_world (mid nid : Z) (pool : list (list op)) : world :=
-  mkWorld (u32 mid) 0 0 false false false (u32 nid) (default_ops :: pool) 0.
+(* the sibling message is attached from the start *)
+Definition init_world (mid nid sib_id node2_id : Z) (pool : list (list op)) : world :=
+  mkWorld (u32 mid) 0 0 false false false (u32 nid) (default_ops :: pool) 0
+    (u32 sib_id) true (u32 node2_id) false false false.
